@@ -235,6 +235,27 @@ int main(int argc, char** argv)
         pr.rec("slowret", i);
       }
     }
+    // --flusher: while the backlog keeps the backend busy, thread F calls flush_log() (its request waits behind the
+    // backlog), then thread W logs through its own logger and exits at once, then F's flush returns. W is one more
+    // "other thread that already exited": what it logged must survive the action like everything else.
+    if (a["flusher"] == "1")
+    {
+      std::thread f([&] { vlog->flush_log(); });
+      usleep(2000); // F's request is queued (and older than what W logs next)
+      int const t = others;
+      std::thread w([&, t]
+                    {
+                      Progress pw{"other" + std::to_string(t)};
+                      quill::Logger* lg = make_file_logger("other" + std::to_string(t), g_dir + "/other" + std::to_string(t) + ".log", clk);
+                      for (long j = 0; j < 6; ++j)
+                      {
+                        LOG_INFO(lg, "O{}|{}", t, j);
+                        pw.rec("ret", j);
+                      }
+                    });
+      w.join();
+      f.join();
+    }
     long i = 0;
     auto log_until = [&](long end)
     {
